@@ -1,7 +1,7 @@
 (* linker_writer.rs, partial_linker_writer.rs and traits.rs::add_whole_document: from a Document
    and run-time settings to script ASTs plus the writer's recorded state.  No proofs here. *)
 From Slinky Require Import Model.Types Model.Generated Model.Runtime Model.Style Model.Script.
-Open Scope string_scope.
+Local Open Scope string_scope.
 
 Record wcfg := WCfg {
   reference_partial : bool;      (* reference_partial_objects *)
@@ -12,16 +12,23 @@ Definition cfg_normal : wcfg := WCfg false true true.
 Definition cfg_main_partial : wcfg := WCfg true true true.
 Definition cfg_sub_partial : wcfg := WCfg false false false.
 
-(* the writer's mutable state that influences later output: files_paths (an IndexSet of paths,
-   kept as raw path strings, membership is component-wise) and the `emitted` flag of each class *)
+(* the writer's mutable state that influences later output: files_paths (an IndexSet of paths; a
+   PathBuf is compared, hashed and displayed through its components, so each path is kept as its
+   component list) and the `emitted` flag of each class *)
 Record wstate := WState {
-  ws_paths : list string;
+  ws_paths : list (list string);
   ws_emitted : list string }.
 
 Definition ws0 : wstate := WState [] [].
 
+Definition comps_eqb (a b : list string) : bool :=
+  if list_eq_dec string_dec a b then true else false.
+
+Definition comps_mem (c : list string) (l : list (list string)) : bool := existsb (comps_eqb c) l.
+
 Definition add_path (p : string) (ws : wstate) : wstate :=
-  if path_mem p (ws_paths ws) then ws else WState (ws_paths ws ++ [p])%list (ws_emitted ws).
+  let c := components p in
+  if comps_mem c (ws_paths ws) then ws else WState (ws_paths ws ++ [c])%list (ws_emitted ws).
 
 Definition mark_emitted (c : string) (ws : wstate) : wstate :=
   WState (ws_paths ws) (c :: ws_emitted ws).
@@ -438,7 +445,7 @@ Definition version_stmts (rt : runtime) : list stmt :=
 (* one LinkerWriter after add_whole_document: its script and its files_paths *)
 Record writer_out := WriterOut {
   wo_script : list stmt;
-  wo_paths : list string }.
+  wo_paths : list (list string) }.
 
 (* LinkerWriter::new + add_whole_document *)
 Definition gen_normal (d : document) (rt : runtime) : res writer_out :=
